@@ -64,6 +64,9 @@ def eq(pids, name, path, old, new, count=1):
 mut('C06', 'ranking-success-not-min', GWF,
     "('SUCCESSFUL', 'INPROGRESS', 'NOTSTARTED', 'STOPPED', 'FAILED')",
     "('INPROGRESS', 'SUCCESSFUL', 'NOTSTARTED', 'STOPPED', 'FAILED')")
+mut('C06', 'waiting-verdict-inside-the-lookup-loop', GWF,
+    "    statuses = {b.name: status(b) for b in wbranches}\n",
+    "    for b in wbranches:\n        if status(b) == 'INPROGRESS':\n            raise messages.BuildInProgress()\n    statuses = {b.name: status(b) for b in wbranches}\n")
 mut('C06', 'max-to-min', GWF,
     "worst = max(wbranches, key=", "worst = min(wbranches, key=")
 mut('C06', 'stopped-not-failure', GWF,
@@ -556,6 +559,9 @@ mut('C10', 'wrong-policy-forwarded', PRUTILS,
     "        _send_comment(settings, pull_request, str(comment), 0)")
 
 # ------------------------------------------------------------------- C08
+mut('C08', 'mirror-refresh-failure-absorbed', GIT,
+    "            self.cmd('git fetch --prune', cwd=git_cache)\n",
+    "            try:\n                self.cmd('git fetch --prune', cwd=git_cache)\n            except CommandError:\n                LOG.warning('stale cache')\n")
 mut('C08', 'force-push', GIT,
     "            self.cmd('git push --set-upstream origin ' + name)",
     "            self.cmd('git push --force --set-upstream origin ' + name)")
@@ -1109,6 +1115,9 @@ mut('C19', 'pr-match-ignores-src', BRANCHES,
     "")
 mut('C19', 'open-prs-any-status', INTEG,
     "        ) if pr.status == 'OPEN']", "        )]")
+mut('C19', 'removal-only-after-a-decline', GWF,
+    "                changed = True\n                break\n        wbranch = branch_factory(job.git.repo, name)",
+    "                changed = True\n                break\n        else:\n            continue\n        wbranch = branch_factory(job.git.repo, name)")
 mut('C19', 'robot-redirect-removed', GWF,
     "    if job.pull_request.author == job.settings.robot:\n        return handle_parent_pull_request(job, job.pull_request)\n    try:",
     "    try:")
